@@ -437,3 +437,51 @@ func vh_C14_views() {
 	}
 	vReach("views")
 }
+
+// vh_C14_keylist: the array (keys h) returns is the script's own: later
+// changes of the hash do not show in it, and writing into it does not change
+// the hash (its keys, their order, len, the printed form, hpair).
+func vh_C14_keylist() {
+	vFormatOpaque(true)
+	env := vStdEnvs(1)[0]
+	v := vSmallInt("v")
+	k := vChoice("case", 6)
+	prog := []string{
+		// the list is kept while the hash changes
+		`(def h (hash a: 1 b: 9001 c: 3)) (def ks (keys h)) (hdel h a:) (hset h d: 4) (str ks)`,
+		`(def h (hash a: 1 b: 9001 c: 3)) (def ks (keys h)) (hdel h b:) (hdel h c:) (len ks)`,
+		`(def h (hash a: 1 b: 9001)) (def ks (keys h)) (hset h c: 3) (hset h d: 4) (hset h e: 5) (str ks)`,
+		// the list is written into
+		`(def h (hash a: 1 b: 9001 c: 3)) (def ks (keys h)) (aset ks 0 (quote zz)) (str (list (keys h) (len h) (hget h a:) (str h)))`,
+		`(def h (hash a: 1 b: 9001 c: 3)) (def ks (keys h)) (aset ks 1 7) (str (list (keys h) (hget h b:) (hpair h 1)))`,
+		`(def h (hash a: 1 b: 9001)) (def ks (append (keys h) (quote q))) (str (list (keys h) (len h) ks))`,
+	}[k]
+	want := []string{
+		`(def ks [(quote a) (quote b) (quote c)]) (str ks)`,
+		`3`,
+		`(def ks [(quote a) (quote b)]) (str ks)`,
+		`(def h (hash a: 1 b: 9001 c: 3)) (str (list (keys h) (len h) (hget h a:) (str h)))`,
+		`(def h (hash a: 1 b: 9001 c: 3)) (str (list (keys h) (hget h b:) (hpair h 1)))`,
+		`(def h (hash a: 1 b: 9001)) (def ks [(quote a) (quote b) (quote q)]) (str (list (keys h) (len h) ks))`,
+	}[k]
+	twin := vStdEnvPool[1]
+	run := func(e *Zlisp, src string) (Sexp, bool) {
+		var r Sexp
+		for _, f := range vT(e, src, v) {
+			var err error
+			var p bool
+			r, err, p = vEval(e, f)
+			if err != nil || p {
+				return nil, false
+			}
+		}
+		return r, true
+	}
+	got, ok1 := run(env, prog)
+	exp, ok2 := run(twin, want)
+	vAssert(ok1 && ok2, "keylist-programs-evaluate")
+	if ok1 && ok2 {
+		vAssert(vSexpEq(got, exp), "key-list-and-hash-are-independent")
+	}
+	vReachIdx("keylist", k, 6)
+}
